@@ -322,3 +322,36 @@ inline int std_main(int argc, char **argv, const char *pid, const std::map<std::
     return rcode;
 }
 } // namespace vf
+
+// ---------------------------------------------------------------------------
+// libFuzzer mode of a property binary (compiled with -DVF_FUZZ and linked against the
+// fuzzer-instrumented variant): the same case-level oracle, driven by coverage-guided byte
+// fuzzing.  The property file supplies init + one(data,size); an oracle failure is recorded
+// with the property's own case string (so the ordinary replay path reproduces it) and traps.
+#ifdef VF_FUZZ
+namespace vf {
+struct FuzzHooks { const char *pid = ""; std::function<bool(Run &)> init; std::function<std::optional<Failure>(Run &, const uint8_t *, size_t)> one; };
+inline FuzzHooks &fuzz_hooks() { static FuzzHooks h; return h; }
+inline Run &fuzz_run() { static Run r; return r; }
+inline void fuzz_flush() { fuzz_run().write(); }
+}
+extern "C" void __sanitizer_set_death_callback(void (*)(void));
+extern "C" int LLVMFuzzerInitialize(int *, char ***) {
+    vf::Run &R = vf::fuzz_run();
+    R.a.out = getenv("VF_OUT") ? getenv("VF_OUT") : "."; R.a.stage = getenv("VF_STAGE") ? getenv("VF_STAGE") : "fuzz";
+    R.a.worker = getenv("VF_WORKER") ? atoi(getenv("VF_WORKER")) : 0; R.a.datadir = getenv("VF_DATA") ? getenv("VF_DATA") : ".";
+    R.prop = vf::fuzz_hooks().pid;
+    if (vf::fuzz_hooks().init && !vf::fuzz_hooks().init(R)) { fprintf(stderr, "fuzz init failed\n"); abort(); }
+    atexit(vf::fuzz_flush);
+    __sanitizer_set_death_callback(vf::fuzz_flush);
+    return 0;
+}
+extern "C" int LLVMFuzzerTestOneInput(const uint8_t *data, size_t size) {
+    vf::Run &R = vf::fuzz_run();
+    auto f = vf::fuzz_hooks().one(R, data, size);
+    if (f && !R.fail(*f)) { vf::fuzz_flush(); fprintf(stderr, "ORACLE-FAILURE %s: %s\n", f->cls.c_str(), f->explain.c_str()); __builtin_trap(); }
+    return 0;
+}
+namespace vf { inline Bytes fuzz_bytes(const uint8_t *d, size_t n) { size_t k = 0; while (k < n && d[k]) k++; return Bytes((const char *) d, k); } }
+#define VF_FUZZ_TARGET(PID, INIT, ONE) static int vf_fuzz_reg = [] { vf::fuzz_hooks().pid = PID; vf::fuzz_hooks().init = INIT; vf::fuzz_hooks().one = ONE; return 0; }();
+#endif
